@@ -33,8 +33,8 @@ CHECKS = {
     ),
     "C06": dict(
         level="other", design="3/C06",
-        technique="static analysis: definite-assignment / bounds / aliasing dataflow on rjac, ljac, rjacinv, ljacinv, adj, smallAdj, fillQ, fillE",
-        text="Decides the structural clause C06.b: every returned Jacobian-typed matrix is completely written on every path, scratch blocks are read only after they were written, constant blocks lie inside the matrix, noalias operands are disjoint. Table (smallAdj = structure constants) and jet (Taylor arm meets closed form) clauses are added as they are built.",
+        technique="static analysis: exact table algebra (smallAdj), definite-assignment / bounds / aliasing dataflow, jet comparison of small-angle switches on rjac, ljac, rjacinv, ljacinv, adj, smallAdj, fillQ",
+        text="Decides: C06.a smallAdj()(k,j) equals the structure constants of hat/vee (exact table algebra, all groups); C06.b every returned Jacobian-typed matrix is completely written on every path, scratch blocks are read only after they were written, constant blocks lie inside the matrix, noalias operands are disjoint; C06.c the Taylor and closed-form arms of SE2 ljac/rjacinv/ljacinv, SO3 ljac/ljacinv, SE3 fillQ and SGal3 ljac meet within 1e-7 (double) / 1e-3 (float) at the switch-over, with no negative-order term and no unguarded division.",
         note="NOT decided: rjacinv*rjac = I, Adj(exp t) = ljac*rjacinv, the series identity, accuracy above the switch-over (numerical).",
     ),
     "C07": dict(
@@ -78,6 +78,18 @@ CHECKS = {
         technique="static analysis: must-pass-through argument checks, counted-loop rule, guarded-unsigned-subtraction rule (syntactic linear facts from dominating checks) on decasteljau()",
         text="Decides: the three argument checks precede all index arithmetic; every loop is a counted loop (termination given wrap-free bounds); every unsigned subtraction is dominated by a check, branch or loop condition (or a property precondition) that makes it non-negative. One genuine defect is reported as a known finding (closed-curve block). Does not decide window maximality, the index range of t*(degree-1)+n, or curve values.",
         note="Exemption table with reasons in engine/check_c17.py. Known finding listed in known_findings.txt.",
+    ),
+    "C02": dict(
+        level="other", design="3/C02",
+        technique="static analysis: jet (truncated power series over Q, sympy) comparison of the two arms of every small-angle switch feeding exp, evaluated by a two-world abstract interpreter over the instantiated AST; guarded-division rule; call-graph delegation rule",
+        text="Decides necessary conditions at and below the switch-over only: for SE2Tangent::exp, SO3Tangent::exp, SO3Tangent::ljac (V of the composite groups) and SGal3Tangent::fillE the closed-form arm has no negative-order term and meets the Taylor arm within 1e-9 (double) / 1e-4 (float) at |theta| = eps^(1/p); nothing is divided by a vanishing quantity on the small-angle side; SE3/SE_2_3/SGal3 exp delegate to those SO3 routines. Does not decide exp = expm(hat) at generic angles, near pi, rounding or overflow.",
+        note="One trusted summary (Quaternion(AngleAxis)); tolerances and eps values are the only numbers not read from the source. A genuine defect found by this rule (fillE) was repaired by a fix: commit.",
+    ),
+    "C03": dict(
+        level="other", design="3/C03",
+        technique="static analysis: jet comparison with hemisphere sign cases on SO3::log, SE2::log and SO3Tangent::ljacinv; guarded-division rule; delegation and principal-angle term rules",
+        text="Decides necessary conditions at the switch-over: in each quaternion hemisphere (w>0, w<0, |v| = sin th, w = +-cos th) the small-angle arm of SO3::log equals the limit of the closed form (q and -q have the same logarithm there); SE2::log and V^-1 arms meet; no division by a vanishing quantity; SE3/SE_2_3/SGal3 log delegate to SO3::log and ljacinv; planar angle() is atan2(imag, real). Does not decide round trips, behaviour near pi, finiteness.",
+        note="A genuine defect found by this rule (SO3::log ignores the hemisphere below the threshold) was repaired by a fix: commit.",
     ),
 }
 
